@@ -185,8 +185,46 @@ def run(ctx: Ctx) -> None:
                             "explain_finds_own": "duplicate-code:", "all_documented": "explain:",
                             "md_bodies_cover": "docs-md"}, b.first_error)
     ctx.exhaustive = True
+    plugin_explain(ctx)
     from . import c17_examples
     c17_examples.run(ctx, cat)
+
+
+def plugin_explain(ctx: Ctx) -> None:
+    """Codes of --load-ed checks appear in output too: each must be explainable under the options that made it
+    appear (default prefix, own prefix, config-file load, disabled-by-default)."""
+    import tempfile
+
+    from ..harness import lint as L
+    tpl = ("from dataclasses import dataclass\nfrom mypy.nodes import IntExpr\nfrom refurb.error import Error\n\n\n@dataclass\nclass ErrorInfo(Error):\n"
+           "    \"\"\"\n    Documentation of {tag}.\n    \"\"\"\n\n{prefix}    code = {code}\n    name = \"{name}\"\n    categories = (\"plugcat\",)\n    enabled = {enabled}\n"
+           "    msg: str = \"{tag}\"\n\n\ndef check(node: IntExpr, errors: list[Error]) -> None:\n    errors.append(ErrorInfo.from_node(node))\n")
+    with tempfile.TemporaryDirectory(prefix="c17plug-") as td:
+        t = Path(td)
+        (t / "plugx").mkdir()
+        (t / "plugx" / "__init__.py").write_text("")
+        mods = [("default_prefix", "", 900, "plug-default-prefix", True, "FURB900"), ("own_prefix", '    prefix = "XYZ"\n', 100, "plug-own-prefix", True, "XYZ100"),
+                ("opt_in", '    prefix = "XYZ"\n', 101, "plug-opt-in", False, "XYZ101")]
+        for fn, prefix, code, name, enabled, tag in mods:
+            (t / "plugx" / f"{fn}.py").write_text(tpl.format(prefix=prefix, code=code, name=name, enabled=enabled, tag=tag))
+        (t / "t.py").write_text("a = 1\n")
+        (t / "pyproject.toml").write_text('[tool.refurb]\nload = ["plugx"]\n')
+        env = {"PYTHONPATH": f"{td}:{L.ENV['PYTHONPATH']}"}
+        rc, out, err = L.cli(["t.py", "--load", "plugx", "--enable-all", "--quiet"], cwd=td, env_extra=env)
+        seen = sorted(set(re.findall(r"\[([A-Z]+\d+)\]", out)))
+        for fn, prefix, code, name, enabled, tag in mods:
+            for how, argv in (("--load", ["--load", "plugx", "--explain", tag]), ("config load", ["--explain", tag]), ("--load after", ["--explain", tag, "--load", "plugx"])):
+                if how != "config load":
+                    (t / "pyproject.toml").rename(t / "pyproject.off")
+                rc2, out2, err2 = L.cli(argv, cwd=td, env_extra=env)
+                if how != "config load":
+                    (t / "pyproject.off").rename(t / "pyproject.toml")
+                ctx.case(("plugin-explain", tag, how), nontrivial=True)
+                ctx.count("plugin-explain")
+                ok = rc2 == 0 and out2.startswith(f"{tag}: {name} [plugcat]") and f"Documentation of {tag}." in out2
+                if tag not in seen or not ok:
+                    ctx.report(f"explain:plugin:{fn}", f"{tag} is reported with --load plugx ({tag in seen}) but `{' '.join(argv)}` ({how}) prints {out2.strip()[:100]!r} (exit {rc2})",
+                               {"argv": argv, "how": how, "stdout": out2[-400:], "stderr": err2[-400:], "codes_reported": seen})
 
 
 def x_explain(ctx: Ctx, cat) -> None:
